@@ -689,6 +689,9 @@ where
             }
         }
 
+        // the subscriber is detached from the store (unsubscribed or the store is stopped)
+        subscriber.on_unsubscribe();
+
         #[cfg(dev)]
         eprintln!("store: {} channel thread done", _name);
     }
